@@ -287,6 +287,14 @@ pub struct St {
     /// number of inserted+enabled lifecycle sources, None = not tracked in this run
     pub lifecycle_expected: Option<usize>,
     /// additional expected epoll entries (adapters, composite children)
+    /// stop() was requested by the program since run()/block_on() started
+    pub stop_requested: bool,
+    /// wakeup() returned and no wait has ended since: the next (or current) wait must not sleep
+    pub wakeup_outstanding: bool,
+    /// every (slot, generation) a token was issued for by the current loop
+    pub issued_keys: std::collections::BTreeSet<usize>,
+    /// a slot went through tens of thousands of reuses: generations may legitimately wrap
+    pub churned: bool,
     pub extra_table: Vec<(u64, u32, Option<i32>)>,
     /// poller keys left behind by a failed multi-step registration whose source the program
     /// kept: their events belong to nobody and must reach nobody
